@@ -455,7 +455,7 @@ class C01(EvalProp):
                     k += 1
         # quoted names with a backslash escape and non-ASCII characters before and after it, in every position a name can take
         BS = chr(92)
-        raw = ["a" + BS + "/\u00e9", "\u00e9" + BS + "/k", "C:" + BS + BS + "Benutzer" + BS + BS + "J\u00f6rg", BS + BS + "\U0001F600", "\u65e5" + BS + "/\u672c",
+        raw = ["dir" + BS * 2 + "/file", BS * 2 + "/", "a" + BS * 2 + BS + "/b", BS + "/" + BS * 2, "a" + BS + "/\u00e9", "\u00e9" + BS + "/k", "C:" + BS + BS + "Benutzer" + BS + BS + "J\u00f6rg", BS + BS + "\U0001F600", "\u65e5" + BS + "/\u672c",
                "\u00e9" + BS + BS + "\u00e9", "x" + BS + "/" + "\U0001F600y", "\u00fc" + BS + "/"]
         def unesc(t):
             return t.replace(BS + "/", "/").replace(BS + BS, BS)
@@ -470,6 +470,14 @@ class C01(EvalProp):
             for text in ("$[0]['%s']" % t, '$[0]["%s"]' % t, "$..['%s']" % t, "$[?@['%s']==1]" % t, "$[0]['plain','%s']" % t, "$[?@['%s']]" % t):
                 out.append(Case("e%d" % k, "STR", [S(text), nd], {"query": text, "table": "escape-then-non-ascii"}, impl=("E2E", [S(text), nd])))
                 k += 1
+        # names whose content is itself wrapped in quote characters, in singular queries and as selectors
+        qm = {'"y"': ("i", 1), "y": ("i", 2), "'x'": ("i", 1), "x": ("i", 2), '""': ("i", 1), "''": ("i", 3), "": ("i", 2), '"': ("i", 4), "'": ("i", 5)}
+        qrow = ("o",) + tuple((S(k_), qm[k_]) for k_ in sorted(qm, key=lambda x: [ord(c) for c in x]))
+        qd = ("a", qrow, ("o", (S("y"), ("i", 1))), ("o", (S("x"), ("i", 1))), ("o", (S(""), ("i", 1))))
+        for text in ("$[?@['\"y\"'] == 1]", "$[?@[\"'x'\"] == 1]", "$[?@['\"\"'] == 1]", "$[?@[\"''\"] == 3]", "$[?@['y'] == 1]", "$[?@[\"x\"] == 1]", "$[?@[''] == 1]",
+                     "$[?1 == @['\"y\"']]", "$[?@['\"y\"']]", "$[0]['\"y\"']", "$[0][\"'x'\"]", "$[?$[0]['\"y\"'] == @['y']]", "$[?@['\"'] == 4]", "$[?@[\"'\"] == 5]"):
+            out.append(Case("e%d" % k, "STR", [S(text), qd], {"query": text, "table": "quote-wrapped-names"}, impl=("E2E", [S(text), qd])))
+            k += 1
         return out
 
     def obs(self, items):
@@ -527,6 +535,16 @@ class C02(EvalProp):
             x, y, z = (self.rng.choice(pool) for _ in range(3))
             tail = self.rng.choice([(), (("sel", ("idx", 0)),), (("sel", "wild"),)])
             out.append(self.make_case("u", ("q", ("sel", ("name", S("k"))), ("sels", x, y, z)) + tail, nested, {"table": "union-triple"}))
+        # unions of NAMES on one object: the members come in the order the selectors are written, not in member order
+        nobj = o_(a=("i", 1), b=("i", 2), c=("i", 3), d=o_(a=("i", 4), b=("i", 5)))
+        npool = [("name", S("'%s'" % k_)) for k_ in ("a", "b", "c", "d", "zz")] + ["wild"]
+        for x_ in npool:
+            for y_ in npool:
+                out.append(self.make_case("un", ("q", ("sels", x_, y_)), nobj, {"table": "name-union-pair"}))
+                out.append(self.make_case("un", ("q", ("sel", ("name", S("d"))), ("sels", x_, y_)), nobj, {"table": "name-union-pair-nested"}))
+        for k in range(120):
+            x_, y_, z_ = (self.rng.choice(npool) for _ in range(3))
+            out.append(self.make_case("un", ("q", ("sels", x_, y_, z_)), nobj, {"table": "name-union-triple"}))
         # a descendant segment visits a node before its descendants: the member of the node itself comes before the same name found
         # deeper under a member that sorts earlier (and under array elements), at several depths
         one = ("i", 1)
@@ -1088,6 +1106,19 @@ class C10(EvalProp):
                 out.append(self.make_case("t", filt(("cmp", op, ("fn", ("length", ("argt", ("tfn", ("value", XS))))), ("lit", ("int", n)))), doc, {"fn": "length-value"}))
         for l in V_SCALAR:
             out.append(self.make_case("t", filt(("cmp", "eq", ("fn", ("length", ("argl", lit_of(l)))), ("lit", ("int", 1)))), ("a", ("i", 0)), {"fn": "length-lit"}))
+        # value() of a nodelist whose several head nodes are narrowed to exactly one (or none, or two) by trailing name / index steps
+        vdoc = ("a", o_(x=o_(v=("i", 1)), y=o_(w=("i", 2))), o_(x=o_(v=("i", 1)), y=o_(v=("i", 2))), o_(x=o_(w=("i", 1))), ("a", ("a", ("i", 1)), ("a", ("i", 2), ("i", 1)), ("i", 3)),
+                ("a", o_(k=S("x"), v=("i", 1)), o_(k=S("y"), v=("i", 9))), ("a", ("i", 5)), ("o",))
+        vargs = [("rel", ("sel", "wild"), ("sel", ("name", S("v")))), ("rel", ("sel", "wild"), ("sel", ("idx", 1))), ("rel", ("sel", ("slice", 1, None, None)), ("sel", ("idx", 1))),
+                 ("rel", ("sel", ("filter", ("atom", ("cmp", "eq", ("sq", "cur", ("n", S("k"))), ("lit", ("str", S("x"))))))), ("sel", ("name", S("v")))),
+                 ("rel", ("desc", ("sel", ("name", S("v"))))), ("rel", ("sel", "wild"), ("sel", "wild")), ("rel", ("sel", "wild"), ("sel", ("idx", 0)))]
+        for va in vargs:
+            for n_ in (1, 2, 9):
+                for op in ("eq", "ne"):
+                    out.append(self.make_case("t", filt(("cmp", op, ("fn", ("value", ("argt", va))), ("lit", ("int", n_)))), vdoc, {"fn": "value-narrowed"}))
+            out.append(self.make_case("t", filt(("cmp", "eq", ("fn", ("value", ("argt", va))), ("sq", "cur", ("n", S("missing"))))), vdoc, {"fn": "value-narrowed-nothing"}))
+            for n_ in (0, 1, 2, 3):
+                out.append(self.make_case("t", filt(("cmp", "eq", ("fn", ("count", ("argt", va))), ("lit", ("int", n_)))), vdoc, {"fn": "count-narrowed"}))
         # arguments that reach their node through a negative index (from @ and from $), alone and after names
         ndoc = ("a", ("a", S("ru"), S("en"), S("rust")), ("a", S("x")), ("a",), o_(tags=("a", S("a"), S("ru")), k=("a", ("a", ("i", 1), ("i", 2)))), S("str"), ("a", ("a", ("i", 1)), ("a", ("i", 1), ("i", 2), ("i", 3))))
         for idx in (-1, -2, -3, 0, 1):
